@@ -392,15 +392,14 @@ Qed.
 Lemma deps_check_parse_only o deps result unprov s : parse_only (deps_check o deps result unprov s).
 Proof. unfold deps_check. destruct (filter _ deps); [apply parse_only_ret|apply parse_only_handle; reflexivity]. Qed.
 
-Lemma dfs_loop_parse_only C o depth : forall data result addition deps s,
-  parse_only (dfs_loop tr C o depth data result addition deps s).
+Lemma dfs_loop_parse_only C o depth : forall data result raw addition deps s,
+  parse_only (dfs_loop tr C o depth data result raw addition deps s).
 Proof.
-  induction data as [|[key value] rest IH]; intros result addition deps s; cbn [dfs_loop]; [apply parse_only_ret|].
+  induction data as [|[key value] rest IH]; intros result raw addition deps s; cbn [dfs_loop]; [apply parse_only_ret|].
   destruct (get_field C key) as [f|].
   - destruct (is_no_input f o); [apply IH|].
-    destruct (negb (o_ignore_alias_conflicts o) && has_key (f_name f) result).
-    + destruct (assoc (f_name f) result); [|apply IH].
-      apply parse_only_mbind; [destruct (negb _); [apply parse_only_handle; reflexivity|apply parse_only_ret]|intros; apply IH].
+    match goal with |- parse_only (match ?x with _ => _ end _) => destruct x as [prev|] end.
+    + apply parse_only_mbind; [destruct (negb _); [apply parse_only_handle; reflexivity|apply parse_only_ret]|intros; apply IH].
     + apply parse_only_mbind; [apply parse_value_parse_only|]. intros [r|] s1 _; apply IH.
   - apply parse_only_mbind; [apply parse_addition_parse_only|intros; apply IH].
 Qed.
@@ -410,12 +409,24 @@ Lemma ffs_loop_parse_only o depth data : forall fields result used unprov deps s
 Proof.
   induction fields as [|[k f] rest IH]; intros result used unprov deps s; cbn [ffs_loop]; [apply parse_only_ret|].
   destruct (ffs_lookup _ _ _ _) as [value conflict].
-  apply parse_only_mbind; [destruct conflict; [apply parse_only_handle; reflexivity|apply parse_only_ret]|].
-  intros _ s1 _. destruct value as [v|].
+  destruct value as [v|].
   - destruct (is_no_input f o); [apply IH|].
+    apply parse_only_mbind; [destruct conflict; [apply parse_only_handle; reflexivity|apply parse_only_ret]|].
+    intros _ s1 _.
     apply parse_only_mbind; [apply parse_value_parse_only|]. intros [r|] s2 _; apply IH.
   - destruct (is_required f o); [|apply IH].
     apply parse_only_mbind; [apply parse_only_handle; reflexivity|intros; apply IH].
+Qed.
+
+Lemma ffs_fold_parse_only C o : forall data acc s, parse_only (ffs_fold C o data acc s).
+Proof.
+  induction data as [|[k v] rest IH]; intros acc s; cbn [ffs_fold]; [apply parse_only_ret|].
+  destruct (str_in _ _); [|apply IH].
+  destruct (assoc _ acc) as [prev|]; [|apply IH].
+  destruct (negb _ && negb _); [|apply IH].
+  apply parse_only_mbind; [|intros; apply IH].
+  destruct (get_field C _) as [f|]; [|apply parse_only_ret].
+  destruct (is_no_input f o); [apply parse_only_ret|apply parse_only_handle; reflexivity].
 Qed.
 
 Lemma ffs_addition_parse_only C o : forall data used addition s, parse_only (ffs_addition C o data used addition s).
@@ -435,10 +446,13 @@ Proof.
   apply parse_only_mbind.
   - destruct (match o_data_first_search o with Some b => b | None => c_dfs C end).
     + unfold data_first_parse. apply parse_only_mbind; [apply dfs_loop_parse_only|]. intros [[result addition] deps] s3 _.
-      apply parse_only_mbind; [destruct (o_ignore_required o); [apply parse_only_ret|apply dfs_missing_parse_only]|].
+      apply parse_only_mbind; [apply dfs_missing_parse_only|].
       intros [result2 unprov] s4 _.
       apply parse_only_mbind; [destruct deps; [apply parse_only_ret|apply deps_check_parse_only]|intros; apply parse_only_ret].
-    + unfold field_first_parse. apply parse_only_mbind; [apply ffs_loop_parse_only|]. intros [[[result used] unprov] deps] s3 _.
+    + unfold field_first_parse.
+      apply parse_only_mbind; [unfold ffs_prepare; destruct (c_ci_names C); [apply parse_only_ret|apply ffs_fold_parse_only]|].
+      intros data' s3' _.
+      apply parse_only_mbind; [apply ffs_loop_parse_only|]. intros [[[result used] unprov] deps] s3 _.
       apply parse_only_mbind; [destruct deps; [apply parse_only_ret|apply deps_check_parse_only]|]. intros _ s4 _.
       destruct (o_addition o); [|apply parse_only_ret].
       apply parse_only_mbind; [apply ffs_addition_parse_only|intros; apply parse_only_ret].
